@@ -44,7 +44,7 @@ def gen_config(rng, tmp):
     axes = tuple(C.Axis(tag, name, float(d)) for tag, name, d in [("wght", "Weight", 400), ("wdth", "Width", 100)][:n_axes])
     srcs = []
     for i in range(rng.randint(1, 3)):
-        p = tmp / rng.choice(["a.svg", "emoji_u1f600.svg", "with space.svg", "ünï.svg", "x,y.svg", f"n{i}.svg"]).replace(".svg", f"{i}.svg")
+        p = tmp / rng.choice(["a.svg", "emoji_u1f600.svg", "with space.svg", "ünï.svg", "x,y.svg", f"n{i}.svg", "emoji_u1f601[alt].svg", "what?.svg", "br[0-9]ace.svg"]).replace(".svg", f"{i}.svg")
         p.write_text("<svg/>")
         srcs.append(p)
     masters = []
